@@ -139,6 +139,62 @@ def _body(si, mask, sepi):
     return True
 
 
+# ------------------------------------------------------------------ C19.b index bookkeeping for ARBITRARY measure counts (stubbed prefix import)
+class _StubDoc:
+    def __init__(self, m):
+        self.m = m
+
+    def measures_count(self):
+        return self.m
+
+
+def ob_b(k: int, m1: int, m2: int, m3: int, m4: int, m5: int, m6: int, sep: int) -> bool:
+    """Generic.concat's own arithmetic, with the prefix import replaced by a stub whose measure counts are SYMBOLIC integers
+    (any non-decreasing sequence): one pair per fragment, the first starts at 0, each next one right after the previous end, pair i
+    ends at the measure count of prefix i, the document returned is the import of the whole text, and every prefix handed to the
+    importer is the separator-joined text of the fragments so far."""
+    from kernpy.core import generic as g
+    assume(1 <= k <= 6 and 0 <= sep < 3)
+    ms = [m1, m2, m3, m4, m5, m6]
+    assume(1 <= m1)
+    for i in range(5):
+        assume(ms[i] <= ms[i + 1])
+    kc = choose(k - 1, 6) + 1
+    sepc = SEPS[choose(sep, 3)]
+    eff = '\n' if sepc is None else sepc
+    contents = ['**kern\n=1\n4c'] + ['=%d\n4d' % (i + 2) for i in range(kc - 1)]
+    seen = []
+    docs = [_StubDoc(ms[i]) for i in range(kc)]
+
+    def stub_create(text, *a, **kw):
+        seen.append(text)
+        return docs[len(seen) - 1], []
+    orig = g.create
+    g.create = stub_create
+    try:
+        doc, idx = g.Generic.concat(contents) if sepc is None else g.Generic.concat(contents, separator=sepc)
+    finally:
+        g.create = orig
+    if len(seen) == 0:
+        from crosshair.util import IgnoreAttempt
+        raise IgnoreAttempt('stub not reached')          # concat no longer imports through kernpy.core.generic.create: inconclusive, never an alarm
+    check(len(idx) == kc, lambda: f'{len(idx)} pairs for {kc} fragments')
+    check(len(seen) == kc, lambda: f'{len(seen)} prefix imports for {kc} fragments')
+    check(doc is docs[kc - 1], 'the document returned is not the import of the complete text')
+    check(idx[0][0] == 0, lambda: f'first pair starts at {idx[0][0]}')
+    for i in range(kc):
+        check(idx[i][1] == ms[i], lambda: f'pair {i} ends at {idx[i][1]}, the text up to fragment {i} has {ms[i]} measures')
+        if i:
+            check(idx[i][0] == idx[i - 1][1] + 1, lambda: f'pair {i} starts at {idx[i][0]}, the previous one ends at {idx[i - 1][1]}')
+        # the prefix handed to the importer holds the fragments so far, joined by the separator, in order
+        check(seen[i].lstrip('\n') == eff.join(contents[:i + 1]), lambda: f'prefix {i} handed to the importer is {seen[i]!r}, expected {eff.join(contents[:i + 1])!r}')
+    return True
+
+
+def fn_b_native(k, m1, m2, m3, m4, m5, m6, sep):
+    return ob_b(k, m1, m2, m3, m4, m5, m6, sep)
+
+
 def _desc(shape, mask, sep):
     sc, groups, nb = fragments(SHAPES[shape], mask)
     return {'shape': list(SHAPES[shape]), 'fragments': ['\n'.join('\t'.join(ln.cells) for ln in g) for g in groups], 'separator': repr(SEPS[sep])}
@@ -152,4 +208,8 @@ OBLIGATIONS = [
        bounds={'quick': 'C07 quick shapes (1-2 kern spines, M<=3) x every cut set (<= 6 fragments) x {newline, empty, default}',
                'thorough': 'M<=4 x every cut set x 3 separators'},
        describe=_desc),
+    Ob(id='C19.b', fn=ob_b, title='index bookkeeping of Generic.concat for arbitrary measure counts (prefix import stubbed): one pair per fragment, consecutive, ending at the prefix\'s measure count',
+       budget_s={'quick': 120, 'thorough': 600}, witnesses=[{'k': 3, 'm1': 1, 'm2': 1, 'm3': 4, 'm4': 4, 'm5': 4, 'm6': 4, 'sep': 0}], min_confirmed=12,
+       symbolic='measure counts of the six prefixes: unbounded integers, any non-decreasing sequence', enumerated='number of fragments (1..6), separator (3)',
+       bounds={'quick': '1..6 fragments x 3 separators x every non-decreasing sequence of measure counts in Z (m1 >= 1)', 'thorough': 'same'}),
 ]
